@@ -9,8 +9,15 @@ import (
 	vc "github.com/formancehq/ledger/internal/verif/vcommon"
 )
 
+// outcomeString: what two executions of one text must agree on. The error text is part of it only for compile and run
+// errors: which of several offending variables / balances is named first follows Go's map iteration order and differs
+// from run to run of the very same program (thorough run, seed 1: two negative balances, either one reported).
 func outcomeString(o realOutcome) string {
-	return fmt.Sprintf("%s|%s|%s|%s|%s|%v", o.Class, o.Stage, o.Err, ng.PostingsString(o.Postings), ng.MetaString(o.TxMeta), o.AccMeta) + o.PanicSig
+	msg := o.Err
+	if o.Stage == "vars" || o.Stage == "resources" || o.Stage == "balances" {
+		msg = ""
+	}
+	return fmt.Sprintf("%s|%s|%s|%s|%s|%v", o.Class, o.Stage, msg, ng.PostingsString(o.Postings), ng.MetaString(o.TxMeta), o.AccMeta) + o.PanicSig
 }
 
 type poolEntry struct {
